@@ -23,7 +23,7 @@ CHECKS = {
          "Implementation-defined format (DESIGN Appendix A.5); names with spaces or quotes are outside the asserted domain.", "4 C05"),
  "C06": ("exploration", "differential monitor: Unreal 2 server model vs the real decoder; exhaustive sweep over every string length byte x decoration x position",
          "Every length byte 0..=255 (both encodings) x {no escape, colour escape at start/middle/end, control codes} x 7 string positions is sent through the real query and must come back as the sent text with colour/control codes removed (8 960 cases, exhaustive), plus random states with repeated rule keys, mutators, bots and 1-6 datagrams per list.",
-         "Implementation-defined format (DESIGN Appendix A.6); Latin-1 bytes 80-9f, a leading 01 in UCS-2 strings and truncated colour escapes are outside the asserted domain.", "4 C06"),
+         "Implementation-defined format (DESIGN Appendix A.6); Latin-1 bytes 80-9f, truncated colour escapes and a UCS-2 first unit whose low byte is 01 are outside the asserted domain; the stray 01 byte of some games (documented: skipped, not counted) is sent in a quarter of the UCS-2 strings and at every second sweep position.", "4 C06"),
  "C03": ("exploration", "differential monitor (five Minecraft status models vs the real decoders) + connection-log monitor for the auto-detect order over all 32 variant subsets",
          "Java JSON, Bedrock pong and legacy 1.6/1.4/beta 1.8 states are encoded by independent models and decoded by the matching query; a reactive server speaking each of the 32 subsets of variants (hostile non-answers for the others: silence, empty close, garbage, truncation, refused connection) checks that protocol::query, games::minecraft::query and query_legacy return the first answering variant in documented order, labelled as such, AutoQuery iff none, and that the recorded connections/requests follow exactly that order.",
          "Models from wiki.vg / RakNet as reproduced in DESIGN Appendix A.7; description compared as JSON.", "4 C03"),
@@ -43,19 +43,19 @@ CHECKS = {
          "Valve challenge echo for all 12^4 words over a boundary byte alphabet at each of info/players/rules with 1-3 rounds (complete log must equal the reference built from what the server issued) plus random words; GameSpy 3 decimal challenges incl. 0/negatives; Java handshake bytes for host-name/protocol/port classes; and for every GAMES entry x port given/omitted x IPv4/IPv6 the destination of every connection and the full request sequence of a valid exchange.",
          "Reference requests from DESIGN Appendix A; Q3 (legacy 1.6 ping payload) asserted loosely, Q6 (Java ping payload) observe-only; default ports taken from the definitions table.", "4 C09"),
  "C10": ("fault_enumeration", "fault injection at the scripted transport: exhaustive per-attempt outcome vectors at every request position; attempts counted on the wire from the transport log",
-         "For 21 retrying subjects (Valve info/players/rules x Enforce/Try, GameSpy 1/2/3, JC2-MP, Quake 1/2/3, Unreal 2 x Enforce/Try, Java, Bedrock, legacy x3, Mindustry, FFOW) and each request position, every outcome vector over {silent, send-fails, malformed, valid}^(r+2), r=0..2 (quick, 336 vectors) / 0..3 (thorough, 1 360 vectors) is injected; attempts, no-retry-after-malformed, result equality with the fault-free run and the failure class are checked from the log and the result.",
+         "For 23 retrying subjects (Valve info/players/rules x Enforce/Try x {silent attempt = no reply at all, silent attempt = challenge issued and then silence}, GameSpy 1/2/3, JC2-MP, Quake 1/2/3, Unreal 2 x Enforce/Try, Java, Bedrock, legacy x3, Mindustry, FFOW) and each request position, every outcome vector over {silent, send-fails, malformed, valid}^(r+2), r=0..2 (quick, 336 vectors) / 0..3 (thorough, 1 360 vectors) is injected; attempts, no-retry-after-malformed, result equality with the fault-free run and the failure class are checked from the log and the result.",
          "Attempts identified by the unit's initial request on the wire; one server state per subject and run.", "4 C10"),
  "C11": ("fault_enumeration", "exhaustive configuration x fault matrix on the scripted transport; request kinds taken from the transport log",
-         "All 1 440 Valve cells (toggle pairs x section outcomes x app-id relation x check on/off) and 81 Unreal 2 cells, each with 20 (quick) / 400 (thorough) random server states: Skip never requests, Try+failure leaves the rest equal to the fault-free response, Enforce+failure fails with the failure's class, BadGame exactly when the check applies and the id is not expected, and nothing is requested after BadGame.",
+         "All 1 440 Valve cells (toggle pairs x section outcomes x app-id relation x check on/off) and 81 Unreal 2 cells (malformed = a datagram of another kind / the right header with an unparsable body / valid datagrams followed by such a one, stratified), each with 60 (quick) / 400 (thorough) random server states: Skip never requests, Try+failure leaves the rest equal to the fault-free response, Enforce+failure fails with the failure's class, BadGame exactly when the check applies and the id is not expected, and nothing is requested after BadGame.",
          "Failure kinds asserted by class (timeout vs non-timeout).", "4 C11"),
  "C14": ("exploration", "three-path differential monitor: transport logs and results of the generic, per-game-module and protocol-level call paths under the same scripted server, for every GAMES entry (table iterated at run time)",
-         "Every GAMES entry x port given/omitted x 7 server behaviours (valid with main/dedicated/foreign app id, players silent, rules silent, malformed, silence) x 6 (quick) / 80 (thorough) states: identical connect/send logs and equal results (JSON; Valve projected to game::Response; Err by kind) across the three paths. Module functions are located through tables generated at build time from the repository's game_query_mod! lines; Eco is probed with real loopback listeners.",
+         "Every GAMES entry x port given/omitted x 7 server behaviours (valid with main/dedicated/foreign app id, players silent, rules silent, malformed, silence) x 18 (quick) / 80 (thorough) states: identical connect/send logs and equal results (JSON; Valve projected to game::Response; Err by kind) across the three paths. Module functions are located through tables generated at build time from the repository's game_query_mod! lines; Eco is probed with real loopback listeners.",
          "Modules matched to definitions by pretty name; unmapped entries are inconclusive for that entry only.", "4 C14"),
  "C15": ("exploration", "reference-table monitor: accessor / as_json / as_original observations of directly generated response values against an accessor table written from the field documentation",
-         "1.5e5 (quick) / 6e6 (thorough) values of the 15 response types and their player types, generated through their public fields from the models' states, are compared with DESIGN Appendix B.1: every accessor, as_json() field by field and through serde_json, players' name/score/as_json, and as_original() (variant, equality and pointer identity).",
+         "6e5 (quick) / 6e6 (thorough) values of the 15 response types and their player types, generated through their public fields from the models' states, are compared with DESIGN Appendix B.1: every accessor, as_json() field by field and through serde_json, players' name/score/as_json, and as_original() (variant, equality and pointer identity).",
          "Table written from the struct field docs; theship game_version accessor observe-only; Minetest/Epic types not built (tls feature).", "4 C15"),
  "C16": ("exploration", "transport-log monitor with a reference grammar parser + reference builder model; scripted page histories for paging; exhaustive short insertion sequences",
-         "All insertion sequences of length <=2 (quick) / <=3 (thorough, 160 434) over 18 filter kinds x 3 groups: the recorded request is parsed by a reference parser of the Master Server Query Protocol grammar and must denote exactly the model's plain/NAND/NOR groups, region and seed; page histories of 1-6 pages x 1-230 entries with every kind of ending check the returned list, the seed of each follow-up request and that nothing is requested after the terminator.",
+         "All 160 434 insertion sequences of length <=3 (both tiers) over 18 filter kinds x 3 groups: the recorded request is parsed by a reference parser of the Master Server Query Protocol grammar and must denote exactly the model's plain/NAND/NOR groups, region and seed; page histories of 1-6 pages x 1-230 entries with every kind of ending check the returned list, the seed of each follow-up request and that nothing is requested after the terminator.",
          "Filter keys/grammar from DESIGN Appendix A.9; values without backslash/NUL/comma; empty tag lists and mid-page terminators observe-only.", "4 C16"),
  "C18": ("exploration", "exhaustive configuration grid through every construction path, then M-panic over real loopback sockets, scripted queries of every protocol family, Eco over loopback HTTP and the CLI binary",
          "All 1 875 grid points ((read, write, connect) in {None, 0, 1 ns, 1 ms, u64::MAX s}^3 x 5 retry counts x {new, clap, serde}) + Default: a zero duration must be rejected by every path; accepted values are used to build real UDP/TCP sockets, to run one scripted query per protocol family against a valid, a malformed and a silent server (step-monitor cuts are counted, not judged), for Eco over HTTP and for gamedig_cli flag invocations; no panic, no exit status 101.",
